@@ -490,7 +490,7 @@ func c02Traversal(c *Ctx) {
 				if strings.Contains(invNF, "search_subjects") && strings.Contains(fwdNF, "nodes_array") && !strings.Contains(fwdNF, "search_") {
 					fwdDerefs := strings.Contains(fwdNF, "nested_nodes") || strings.Contains(fwdNF, "find ")
 					invProjects := strings.Contains(invNF, "{\"@id\":")
-					r.Check(fwdDerefs || invProjects, "C02.P11", key+"#same-representation", p.Pos(fd.Pos()), "both directions yield the reached nodes in the same form when they are not dereferenced", "when the results are not dereferenced the forward arm yields links ({\"@id\": …}, the values as the node holds them) while the inverse arm yields the full node objects the subject search returns: in `p | q^` a node reached both ways is two members of the result set, so counts are off by one (maxCount: 1 is reported although one node is reached)")
+					r.Check(fwdDerefs || invProjects, "C02.P11", "step:forward-yields-links/inverse-yields-nodes#same-representation", p.Pos(fd.Pos()), "both directions yield the reached nodes in the same form when they are not dereferenced", "when the results are not dereferenced the forward arm yields links ({\"@id\": …}, the values as the node holds them) while the inverse arm yields the full node objects the subject search returns: in `p | q^` a node reached both ways is two members of the result set, so counts are off by one (maxCount: 1 is reported although one node is reached)")
 				}
 			}
 		}
